@@ -89,6 +89,23 @@ UD_PY = [False]     # oracle switch: True = judge user data as Python == does (o
 # building real slivers from specs
 # ----------------------------------------------------------------------------------------------
 
+
+def mk_cap(d):
+    """round 7 (seed C17-13): a Capacities value of the given fields, built in one of three ways that give the same value
+    (plain constructor; minus an all-zero value; plus and minus one core) - the way is a deterministic function of the
+    fields, so both sides of a comparison can come out of arithmetic.  Observations and the model see field values only."""
+    import zlib
+    from fim.slivers.capacities_labels import Capacities
+    c = Capacities(**d)
+    way = zlib.crc32(json.dumps(d, sort_keys=True, default=str).encode()) % 3
+    if way == 1:
+        c = c - Capacities()
+    elif way == 2:
+        one = Capacities(core=1)
+        c = (c + one) - one
+    return c
+
+
 def build(spec):
     from fim.slivers.network_node import NodeSliver, NodeType
     from fim.slivers.network_service import NetworkServiceSliver, NetworkServiceInfo, ServiceType
@@ -114,7 +131,7 @@ def build(spec):
     if spec['lab'] is not None:
         s.set_labels(Labels(**spec['lab']))
     if spec['cap'] is not None:
-        s.set_capacities(Capacities(**spec['cap']))
+        s.set_capacities(mk_cap(spec['cap']))
     if spec['ud'] is not None:
         s.set_user_data(UserData(spec['ud'][1]))
     if k == 'node':
@@ -1041,7 +1058,7 @@ def morph(obj, new):
     if not same_value(cur['lab'], new['lab'], 'lab'):
         obj.set_labels(None if new['lab'] is None else Labels(**new['lab']))
     if not same_value(cur['cap'], new['cap'], 'cap'):
-        obj.set_capacities(None if new['cap'] is None else Capacities(**new['cap']))
+        obj.set_capacities(None if new['cap'] is None else mk_cap(new['cap']))
     if not same_value(cur['ud'], new['ud'], 'ud'):
         obj.set_user_data(None if new['ud'] is None else UserData(new['ud'][1]))
     for attr in KINDS[k]:
@@ -1333,7 +1350,7 @@ def apply_topo_edit(t, e, done):
         if prop == 'lab':
             el.labels = None if v is None else Labels(**v)
         elif prop == 'cap':
-            el.capacities = None if v is None else Capacities(**v)
+            el.capacities = None if v is None else mk_cap(v)
         else:
             el.user_data = None if v is None else UserData(v[1])
     try:
